@@ -131,6 +131,21 @@ class Deduping(DNAGenerator):
     self.generator.feedback(dna, reward)
     self._add_dna_to_cache(dna, reward)
 
+  def recover(self, history) -> None:
+    """Recovers the wrapped generator through its own `recover`."""
+    history = list(history)
+    # The wrapped generator may override `recover` (e.g. evolution): replaying
+    # through its `_replay` alone would leave its own state behind.
+    self.generator.recover(history)
+    for dna, reward in history:
+      self._num_proposals += 1
+      if reward is not None:
+        self._num_feedbacks += 1
+      # Same rule as the live run: generators that need feedback remember a
+      # DNA when its reward arrives, others when it is proposed.
+      if reward is not None or not self.needs_feedback:
+        self._add_dna_to_cache(dna, reward)
+
   def _replay(self, trial_id: int, dna: DNA, reward: Any) -> None:
     self.generator._replay(trial_id, dna, reward)  # pylint: disable=protected-access
     self._add_dna_to_cache(dna, reward)
